@@ -189,13 +189,32 @@ Definition del_header (k : bytes) (c : bolt_cmd) : bolt_cmd :=
 Definition set_data (d : bytes) (c : bolt_cmd) : bolt_cmd :=
   upd c (b_reqid c) (b_kvs c) d (b_hchanged c) true (b_raw c) (b_classlen c) (b_headerlen c) (b_contentlen c).
 
-Inductive bolt_op := OpSetId (id : N) | OpSetHeader (k v : bytes) | OpDelHeader (k : bytes) | OpSetData (d : bytes).
+(* The body buffer returned by GetData is rewritten IN PLACE (proxy SetRequestData / SetResponseData: Reset + ReadFrom on the
+   same buffer object) and SetData is called with that same buffer.  SetData (repaired, Gen/CodecSrc.v
+   setdata_sees_inplace_rewrite): changed iff the buffer no longer is the untouched view of rawContent, i.e. another length or
+   another backing array.  While the content still is the raw view (ContentChanged = false) a rewrite of the same length
+   overwrites the content bytes of rawData in place and nothing is flagged; any other rewrite flags the content changed.
+   (class / header length fields of the struct are the decoded ones until an Encode rewrites them.) *)
+Definition content_index (c : bolt_cmd) : N := l_hlen (layout_of (b_v2 c) (b_resp c)) + b_classlen c + b_headerlen c.
+Definition rewrite_in_place (d : bytes) (c : bolt_cmd) : bolt_cmd :=
+  match b_raw c with
+  | Some (Private raw) =>
+      if negb (b_cchanged c) && (blen d =? blen (b_content c)) then
+        upd c (b_reqid c) (b_kvs c) d (b_hchanged c) (b_cchanged c) (Some (Private (patch raw (content_index c) d)))
+            (b_classlen c) (b_headerlen c) (b_contentlen c)
+      else set_data d c
+  | _ => upd c (b_reqid c) (b_kvs c) d (b_hchanged c) (b_cchanged c) (b_raw c) (b_classlen c) (b_headerlen c) (b_contentlen c)
+  end.
+
+Inductive bolt_op := OpSetId (id : N) | OpSetHeader (k v : bytes) | OpDelHeader (k : bytes) | OpSetData (d : bytes)
+                   | OpRewriteInPlace (d : bytes).
 Definition apply_op (c : bolt_cmd) (o : bolt_op) : bolt_cmd :=
   match o with
   | OpSetId id => set_request_id id c
   | OpSetHeader k v => set_header k v c
   | OpDelHeader k => del_header k c
   | OpSetData d => set_data d c
+  | OpRewriteInPlace d => rewrite_in_place d c
   end.
 
 (* ---- Encode --------------------------------------------------------------------------------------
